@@ -1311,7 +1311,7 @@ func genPrune(r *Rng) Sx {
 }
 
 func gen(r *Rng, tier string, emit func(Sx)) {
-	nBlock, nLong, nIndex, nBad, nBadStore := 300, 20, 24, 400, 50
+	nBlock, nLong, nIndex, nBad, nBadStore := 260, 16, 20, 400, 50
 	if tier == "thorough" {
 		nBlock, nLong, nIndex, nBad, nBadStore = 8000, 600, 800, 10000, 1200
 	}
